@@ -86,6 +86,8 @@ const SEQ_BAD: &[&str] = &[
     "    {v} := 1 +\n      {true};\n",
 ];
 const DECL_OK: &[&str] = &[
+    "  -- vhdl_ls off\n  {signal} {fenced} : {no_such_type} := {nothing};\n  -- vhdl_ls on\n",
+    "  -- vhdl_ls off\n\n  {signal} {fenced2} : {no_such_type}\n  {garbage} ;; (\n  /* vhdl_ls on */\n",
     "  -- declarations follow; 'x' \"y\" -- nested\n",
     "  {alias} {al} {is} {s1};\n",
     "  {constant} {k0} : {integer} := {c0} + 2#1_0#;\n",
@@ -108,6 +110,7 @@ const DECL_BAD: &[&str] = &[
     "  {function} {nobody}({x} : {integer}) {return} {integer};\n",
 ];
 const CONC_OK: &[&str] = &[
+    "  -- vhdl_ls off\n  {fl} : {entity} {work}.{vendor_cell} {port} {map} ({x} => {y});\n  -- vhdl_ls on\n",
     "  {u7} : {entity} {work}.{sub2} {generic} {map} (2, \"n\", {true}) {port} {map} ({so}, {s1}, {col}, {so2});\n",
     "  {u8} : {sub2} {generic} {map} (3, \"m\", {false}) {port} {map} ({so}, {s2}, {col}, {open});\n",
     "  {u9} : {entity} {work}.{sub2}({rtl}) {port} {map} ({so}, 16#A#, {red}, {so2});\n",
